@@ -272,6 +272,61 @@ fn record(dir: &Path, thorough: bool) -> Result<Recorded, String> {
         client.add_commands(&mut trx, &mut sink, &[c_r1, c_s1, c_r2, c_s2, c_r3], &mut bufs, MemSpill::new).map_err(|x| e("add_commands 6", &x))?;
         client.commit(trx, &mut sink, &mut bufs, MemSpill::new).map_err(|x| e("commit 6", &x))?;
         done(&mut client, "5 one-command segments on two branches")?;
+
+        // 7: second collapse round
+        let a7 = Action { tag: 0x10, seq: 7, cmds: vec![vec![ins("n0", k(&["a"]), "v0")]] };
+        client.action(gid, &mut sink, &a7, &mut bufs, MemSpill::new).map_err(|x| e("action 7", &x))?;
+        done(&mut client, "action collapsing two heads (2)")?;
+
+        // 8: reopen in the middle, then a three-branch transaction committed multi-head
+        drop(client);
+        client = open_client(dir)?;
+        let h = client.head_address(gid).map_err(|x| e("head_address", &x))?;
+        let (c_t1, a_t1) = tc(20, Prior::Single(h), &[ins("n1", k(&["a", "a"]), "v0")]);
+        let (c_t2, _) = tc(21, Prior::Single(a_t1), &[del("n0", k(&["a"]))]);
+        let (c_u1, _) = tc(22, Prior::Single(h), &[ins("n0", k(&["ab", "a"]), "v1")]);
+        let (c_w1, _) = tc(23, Prior::Single(h), &[del("n1", k(&["ab"]))]);
+        let mut trx = client.transaction(gid);
+        client.add_commands(&mut trx, &mut sink, &[c_t1, c_t2, c_u1, c_w1], &mut bufs, MemSpill::new).map_err(|x| e("add_commands 8", &x))?;
+        client.commit(trx, &mut sink, &mut bufs, MemSpill::new).map_err(|x| e("commit 8", &x))?;
+        done(&mut client, "three-branch transaction after reopen, multi-head")?;
+
+        // 9: action collapsing three heads (two merges) with two commands
+        let a9 = Action { tag: 0x10, seq: 9, cmds: vec![vec![ins("n1", k(&[]), "v0")], vec![del("n0", k(&["ab", "a"]))]] };
+        client.action(gid, &mut sink, &a9, &mut bufs, MemSpill::new).map_err(|x| e("action 9", &x))?;
+        done(&mut client, "two-command action collapsing three heads")?;
+
+        // 10: plain action
+        let a10 = Action { tag: 0x10, seq: 10, cmds: vec![vec![ins("n0", k(&["a", ""]), "v1")]] };
+        client.action(gid, &mut sink, &a10, &mut bufs, MemSpill::new).map_err(|x| e("action 10", &x))?;
+        done(&mut client, "single-command action (final)")?;
+
+        // 11: one transaction writing ten one-command segments on three alternating branches
+        // (a large window of unsynced writes before the data barrier), committed multi-head
+        let h = client.head_address(gid).map_err(|x| e("head_address", &x))?;
+        let mut tips = [h, h, h];
+        let mut cmds = Vec::new();
+        for i in 0..10u64 {
+            let b = (i % 3) as usize;
+            let ops = match i % 4 {
+                0 => vec![ins("n0", k(&["a", "ab"]), if i % 8 == 0 { "v0" } else { "v1" })],
+                1 => vec![del("n1", k(&[]))],
+                2 => vec![ins("n1", k(&["a"]), "v0")],
+                _ => vec![del("n0", k(&["a", ""]))],
+            };
+            let (c, a) = tc(30 + i, Prior::Single(tips[b]), &ops);
+            tips[b] = a;
+            cmds.push(c);
+        }
+        let mut trx = client.transaction(gid);
+        client.add_commands(&mut trx, &mut sink, &cmds, &mut bufs, MemSpill::new).map_err(|x| e("add_commands 11", &x))?;
+        client.commit(trx, &mut sink, &mut bufs, MemSpill::new).map_err(|x| e("commit 11", &x))?;
+        done(&mut client, "ten one-command segments on three branches, multi-head")?;
+
+        // 12: collapse the three heads again
+        let a12 = Action { tag: 0x10, seq: 12, cmds: vec![vec![ins("n0", k(&[""]), "v1")]] };
+        client.action(gid, &mut sink, &a12, &mut bufs, MemSpill::new).map_err(|x| e("action 12", &x))?;
+        done(&mut client, "action collapsing three heads (2)")?;
     }
     drop(client);
     let log = interpose::stop();
@@ -398,32 +453,35 @@ struct Gen2 {
     /// generation-1 recipe the continuation was recorded on
     base: usize,
     /// observation hashes: recovered state, after continuation commit 1, after commit 2
-    states: [u128; 3],
+    states: Vec<u128>,
     log: Vec<Rec>,
     en: Enumerated,
 }
 
-fn record_gen2(dir: &Path, gid: GraphId, log1: &[Rec], recipe1: &Recipe, base: usize) -> Result<Gen2, String> {
+fn record_gen2(dir: &Path, gid: GraphId, log1: &[Rec], recipe1: &Recipe, base: usize, deep: bool) -> Result<Gen2, String> {
     let _ = std::fs::remove_dir_all(dir);
     std::fs::create_dir_all(dir).map_err(|e| format!("scratch: {e}"))?;
     materialise(&dir.join(gid.to_string()), log1, recipe1)?;
     let mut bufs: Box<Bufs> = Box::new(RuntimeBuffers::new());
     let mut sink = VecSink::default();
+    let mut conts = vec![extra_action(), second_action()];
+    if deep {
+        conts.push(Action { tag: 0x7E, seq: 101, cmds: vec![vec![del("n1", k(&["x"]))], vec![ins("n0", k(&["z"]), "v1")]] });
+    }
     interpose::start(dir);
-    let res = (|| -> Result<[u128; 3], String> {
+    let res = (|| -> Result<Vec<u128>, String> {
         let mut client = open_client(dir)?;
-        let s0 = hash128(&observe(client.provider(), gid)?);
-        client.action(gid, &mut sink, &extra_action(), &mut bufs, MemSpill::new).map_err(|e| format!("continuation commit 1: {e:?}"))?;
-        interpose::marker(0);
-        let s1 = hash128(&observe(client.provider(), gid)?);
-        client.action(gid, &mut sink, &second_action(), &mut bufs, MemSpill::new).map_err(|e| format!("continuation commit 2: {e:?}"))?;
-        interpose::marker(1);
-        let s2 = hash128(&observe(client.provider(), gid)?);
-        Ok([s0, s1, s2])
+        let mut states = vec![hash128(&observe(client.provider(), gid)?)];
+        for (i, a) in conts.iter().enumerate() {
+            client.action(gid, &mut sink, a, &mut bufs, MemSpill::new).map_err(|e| format!("continuation commit {}: {e:?}", i + 1))?;
+            interpose::marker(i);
+            states.push(hash128(&observe(client.provider(), gid)?));
+        }
+        Ok(states)
     })();
     let log = interpose::stop();
     let states = res?;
-    let en = enumerate(&log);
+    let en = enumerate(&log, deep);
     Ok(Gen2 { base, states, log, en })
 }
 
@@ -446,8 +504,12 @@ fn evaluate_gen2(dir: &Path, gid: GraphId, log1: &[Rec], recipe1: &Recipe, g: &G
     }
 }
 
-fn tear_points(off: u64, len: usize) -> Vec<usize> {
+fn tear_points(off: u64, len: usize, deep: bool) -> Vec<usize> {
     let mut v = BTreeSet::new();
+    if deep && (off == 4096 || off == 8192) {
+        // thorough: a root record is torn at every byte position
+        v.extend(1..len);
+    }
     // sector boundaries inside the write
     let mut b = (off / 512 + 1) * 512;
     while b < off + len as u64 {
@@ -481,7 +543,8 @@ struct Enumerated {
     max_w: usize,
 }
 
-fn enumerate(log: &[Rec]) -> Enumerated {
+fn enumerate(log: &[Rec], deep: bool) -> Enumerated {
+    let (exhaustive_upto, max_dev) = if deep { (14usize, 4usize) } else { (12, 3) };
     let mut recipes: Vec<Recipe> = Vec::new();
     let mut index: HashMap<Recipe, usize> = HashMap::new();
     let mut contexts = Vec::new();
@@ -509,22 +572,24 @@ fn enumerate(log: &[Rec]) -> Enumerated {
         };
         let n = w.len();
         // kept / lost subsets
-        let masks: Vec<u64> = if n <= 12 {
+        let masks: Vec<u64> = if n <= exhaustive_upto {
             en.exhaustive_subsets += 1u64 << n;
             (0..1u64 << n).collect()
         } else {
             let mut v = BTreeSet::new();
             let all = (1u64 << n) - 1;
-            // within 3 deviations of all-kept and of all-lost
+            // within `max_dev` deviations of all-kept and of all-lost
             let mut dev: Vec<u64> = vec![0];
-            for a in 0..n {
-                dev.push(1 << a);
-                for b in a + 1..n {
-                    dev.push(1 << a | 1 << b);
-                    for c in b + 1..n {
-                        dev.push(1 << a | 1 << b | 1 << c);
+            let mut layer: Vec<(u64, usize)> = vec![(0, 0)];
+            for _ in 0..max_dev {
+                let mut next = Vec::new();
+                for &(m, from) in &layer {
+                    for a in from..n {
+                        next.push((m | 1 << a, a + 1));
                     }
                 }
+                dev.extend(next.iter().map(|x| x.0));
+                layer = next;
             }
             for d in dev {
                 v.insert(d);
@@ -541,7 +606,7 @@ fn enumerate(log: &[Rec]) -> Enumerated {
         // torn writes
         for (pos, &i) in w.iter().enumerate() {
             if let Rec::Write { off, data } = &log[i] {
-                for t in tear_points(*off, data.len()) {
+                for t in tear_points(*off, data.len(), deep) {
                     for ctx in 0..4 {
                         let mut kept: Vec<(u32, u32)> = Vec::new();
                         for (p2, &j) in w.iter().enumerate() {
@@ -625,7 +690,7 @@ pub fn run(args: &Args) {
         mcx::machinery_error("two different commits of the workload have the same observation");
     }
 
-    let en = enumerate(&rec.log);
+    let en = enumerate(&rec.log, thorough);
     let deadline = mcx::Deadline::after_secs(if thorough { 1000 } else { 45 });
     let evaluated = AtomicU64::new(0);
     let gid = rec.gid;
@@ -756,7 +821,7 @@ pub fn run(args: &Args) {
     let mut gen2s: Vec<Gen2> = Vec::new();
     let g2dir = scratch.path().join("gen2rec");
     for (_, &id) in groups.iter() {
-        match record_gen2(&g2dir, gid, log, &en.recipes[id], id) {
+        match record_gen2(&g2dir, gid, log, &en.recipes[id], id, thorough) {
             Ok(g) => gen2s.push(g),
             Err(e) => {
                 *outcomes.entry("violation").or_default() += 1;
@@ -798,11 +863,7 @@ pub fn run(args: &Args) {
                 g2_nontrivial.insert((gi, c2.recipe_id));
             }
             let k2 = c2.commits_returned;
-            let allowed: &[u128] = match k2 {
-                0 => &g.states[0..2],
-                1 => &g.states[1..3],
-                _ => &g.states[2..3],
-            };
+            let allowed: &[u128] = &g.states[k2.min(g.states.len() - 1)..(k2 + 2).min(g.states.len())];
             let key2 = || format!("second crash: [{base_desc}] recovered; then crash after {} of {} operations of the recovered session ({k2} further commits returned): {}", c2.prefix, g.log.len(), c2.desc);
             let replay2 = || json!({"gen1_recipe": en.recipes[g.base], "gen2_prefix": c2.prefix, "gen2_recipe": g.en.recipes[c2.recipe_id], "tier": args.tier.as_str()});
             match res {
@@ -859,7 +920,7 @@ pub fn run(args: &Args) {
     rep.set("crash_cases_enumerated", en.contexts.len() as u64);
     rep.set("distinct_images", en.recipes.len() as u64);
     rep.set("distinct_nontrivial", nontrivial.len() as u64 + gen2_nontrivial);
-    rep.set("rule", "crash case = (prefix of the recorded op log, persistence pattern of the writes since the last completed sync: kept/lost subsets — all 2^|W| for |W|<=12, else within 3 deviations of all-kept/all-lost — and single torn writes at 512-byte boundaries and, for sub-sector writes, after byte 1, len/2, len-1, with the other unsynced writes all kept / all lost / kept-before / kept-after); cases giving the same file content are reopened once (evaluations = distinct images reopened); non-trivial = distinct images in which the unsynced writes are neither all kept nor all lost (a proper non-empty subset or a torn write)");
+    rep.set("rule", format!("crash case = (prefix of the recorded op log, persistence pattern of the writes since the last completed sync: kept/lost subsets — all 2^|W| for |W|<={}, else within {} deviations of all-kept/all-lost — and single torn writes {}at 512-byte boundaries and, for sub-sector writes, after byte 1, len/2, len-1, with the other unsynced writes all kept / all lost / kept-before / kept-after); cases giving the same file content are reopened once (evaluations = distinct images reopened); non-trivial = distinct images in which the unsynced writes are neither all kept nor all lost (a proper non-empty subset or a torn write); a second generation repeats this on every class of recovered images over a continuation of {} commits", if thorough { 14 } else { 12 }, if thorough { 4 } else { 3 }, if thorough { "at EVERY byte position of root records, " } else { "" }, if thorough { 3 } else { 2 }));
     rep.set("exhaustive", !cap);
     if cap {
         rep.set("cap_hit", true);
